@@ -160,4 +160,5 @@ func c11(c *Ctx) {
 	c.nilEncodingIsRefused("R11.10")
 	c.headerOffsetsInRange("R11.11")
 	c.noNegativeIndex("R11.12")
+	c.mailboxNamesAreValidated("R11.13")
 }
